@@ -22,6 +22,7 @@ func TestMain(m *testing.M) {
 		"trees: (1) exhaustive table of every ordered pair of the 14 binary operators in both nestings, every unary x binary combination and postfix operands; (2) random statement/expression trees to depth 5 over every operator, calls with positional/named/trailing-comma arguments, index chains, all slice forms, attribute chains, list/map literals, all assignment kinds, if/elif/else, the 8 for shapes, for-in, break/continue. Each tree is parenthesised only where the documented precedence table requires, printed in the minimal layout, in random admissible layouts (blanks anywhere; line breaks/comments only where the grammar admits them) and with redundant parentheses inserted. Oracle: conv(ParsePipeline(text)) is structurally equal to the tree (signed numeric literals folded); every layout parses to the same tree; redundant parentheses add only paren nodes. Non-trivial: two different operators in parent/child relation, or a layout with a line break/comment inside a statement; distinct by tree skeleton + layout class.",
 		"precedence of `in` and of unary operators is taken from gram.y's %left/%right lines (the reference table omits both rows)",
 		"chained assignment (a = b = 3), shown in the reference but not part of the property statement, is not generated")
+	impl.DisturbEvery = 3 // every third parse/load is preceded by a parse of an unrelated malformed text
 	code := m.Run()
 	evid.Flush(code == 0)
 	os.Exit(code)
